@@ -85,6 +85,32 @@ def finish_rt(ctx, prefix, cases, recs, verdicts, rule, extra_violations):
         "trees are compared through the mechanical serializer of the harness (one constructor per JSON record)"])
 
 
+def respelled_duplicates(cases, every):
+    """a program followed by itself in another spelling (blanks, `;` for `,`): the same rule twice is still two rules"""
+    out = []
+    for k, c in enumerate(cases):
+        if k % every == 0 and c["as"] == "program" and len(c["text"]) < 200:
+            t = c["text"]
+            t2 = t.replace(", ", ",").replace(" :- ", ":-  ") if k % 2 == 0 else t.replace(", ", " ; ").replace("(", "( ")
+            out.append({"id": c["id"] + "/twice", "as": "program", "text": t + " " + t2, "origin": c.get("origin", "")})
+    return out
+
+
+def nesting_sweep(maxdepth):
+    """every nesting depth of NECESSARY parentheses up to maxdepth, with each spelling of the innermost term: a limit of the reader
+    (or of the printer) at some depth shows as a text that is accepted while its printed form is not"""
+    out = []
+    for d in range(1, maxdepth + 1):
+        inner = ["- 1", "-(1)", "-X", "1 + X"][d % 4]
+        body = inner
+        for k in range(d):
+            body = f"2 * ({body} + {k % 3})" if k % 2 == 0 else f"({body} - 1) / 2"
+        out.append({"id": f"deep{d}", "as": "program", "text": f"p({body}) :- q(X)."})
+        if d % 4 == 0:
+            out.append({"id": f"deepneg{d}", "as": "program", "text": "p(" + "-(" * d + "X" + ")" * d + ") :- q(X)."})
+    return out
+
+
 def run_C14(ctx):
     V.build()
     q = ctx.quick()
@@ -97,6 +123,7 @@ def run_C14(ctx):
     cases += [{"id": f"x{i}", "as": "program", "text": t} for i, t in enumerate(ASP_EXTRA + C.TABLE_PROGRAMS)]
     for i, (name, text) in enumerate(V.repo_programs()):
         cases.append({"id": f"repo{i}", "as": "program", "text": text, "origin": name})
+    cases += respelled_duplicates(cases, 12 if q else 3) + nesting_sweep(160 if q else 400)
     recs = roundtrip_records(ctx, cases)
     verdicts = V.tlc_validate(ctx, "TraceSem", recs, {}, workers=4)
     return finish_rt(ctx, "C14", cases, recs, verdicts,
